@@ -371,7 +371,53 @@ def lexer_contract(rep, dname):
     ex = pysym.Executor()
     _install_split(ex)
     v = pysym.verify(errf.__module__, errf.__qualname__, make_args, post, ex=ex)
-    _emit(rep, f'C05.lex.error.{dname}', v, f'{errf.__module__}:{errf.__qualname__}', 'raises LexError on every path (no character is skipped)')
+    fn_e = f'{errf.__module__}:{errf.__qualname__}'
+    clause_e = 'raises LexError on every path (no character is skipped)'
+    if v.status not in (PROVED, FAILED) and 'Unsupported' in str(v.detail):
+        # the body is outside the executor's subset (tool limit, not a refutation): the obligation is left open (soft) and the
+        # decision rests on a bounded stand-in that drives the real lexer over illegal characters at every position of every layout
+        bad = _error_bounded(L)
+        if bad is None:
+            rep.undecided(f'C05.lex.error.{dname}', 'pysym', f'{str(v.detail)[:200]}: decision rests on C05.bounded.{dname}.lex-error', function=fn_e, clause=clause_e, soft=True)
+            rep.add_bounded(Bounded(f'C05.bounded.{dname}.lex-error', True, bound=f'{_ERROR_BOUND} (illegal character at every offset of every layout)'))
+        else:
+            rep.add_bounded(Bounded(f'C05.bounded.{dname}.lex-error', False, bad[0], bad[1], 'LexError', bound=_ERROR_BOUND))
+            rep.undecided(f'C05.lex.error.{dname}', 'pysym', str(v.detail)[:200], function=fn_e, clause=clause_e, soft=True)
+    else:
+        _emit(rep, f'C05.lex.error.{dname}', v, fn_e, clause_e)
+
+
+_ERROR_LAYOUTS = ['select 1', 'select a\nfrom b', 'select a\n\nfrom b\n', '\n', '', 'a\n\n\nb', "select 'x\ny' from t", 'select a -- c\nfrom b /* d\n e */ where 1']
+_ERROR_BOUND = f'{len(_ERROR_LAYOUTS)} layouts x every offset x 3 illegal characters'
+
+
+def _error_bounded(L):
+    """the real lexer on texts with an illegal character inserted at every offset: tokenize() must raise LexError (-> None) or (text, observed)"""
+    from sly.lex import LexError
+    illegal = ['\x01', '\x02', '\x7f']
+    for lay in _ERROR_LAYOUTS:
+        for k in range(len(lay) + 1):
+            for c in illegal:
+                txt = lay[:k] + c + lay[k:]
+                # skip texts where the inserted character lands inside a string/comment/quoted token (legal there)
+                try:
+                    toks = list(L().tokenize(txt))
+                except LexError:
+                    continue
+                except Exception as e:
+                    return txt, f'{type(e).__name__}: {e}'
+                if not any(c in str(t.value) for t in toks) and not _in_skipped(L, txt, k):
+                    return txt, f'tokenized without error: {[(t.type, t.value) for t in toks][:8]}'
+    return None
+
+
+def _in_skipped(L, txt, k):
+    """is offset k inside a comment of txt (comments are skipped by the lexer, any character is legal there)"""
+    import re as _re
+    for m in _re.finditer(r'/\*[\s\S]*?\*/|--[^\n]*', txt):
+        if m.start() <= k < m.end():
+            return True
+    return False
 
 
 def _install_split(ex):
